@@ -22,13 +22,13 @@ func C02(run *vf.Run) {
 	run.Assume("calls after Close are not generated; ProcessLogging is called at most once per transaction")
 	rel := func(c string) bool { return !bodyComponent(c) }
 	if !txm.ModelCheck(run, txm.MCOpts{Name: "lifecycle", Engines: `{"On", "DetectionOnly", "Off"}`, ReqLimits: "{2}", Ks: "{1, 3}", Modes: `{"slice", "unknown"}`,
-		DisruptKinds: vf.Pick(run, `{"deny", "ctlDet"}`, `{"deny", "drop", "redirect", "ctlDet", "ctlOn", "ctlOff"}`),
+		DisruptKinds: vf.Pick(run, `{"deny", "ctlDet", "ctlReqOn"}`, `{"deny", "drop", "redirect", "ctlDet", "ctlOn", "ctlOff", "ctlReqOn", "ctlReqOff", "ctlRespOn", "ctlRespOff"}`),
 		Phases2:      vf.Pick(run, "{2, 4}", "{1, 2, 3, 4, 5}"), Workers: 14, Timeout: vf.Pick(run, 15*time.Minute, 120*time.Minute)}) {
 		return
 	}
 	txm.ReplayEdges(run, txm.MCOpts{Name: "lifecycle-edges", Engines: `{"On", "DetectionOnly"}`, ReqLimits: "{2}", Ks: vf.Pick(run, "{3}", "{1, 3}"), Modes: `{"slice"}`,
 		CallNames:    vf.Pick(run, `{"PRH", "PRB", "PRSH", "PRSB", "PL", "WREQ"}`, `{"PRH", "PRB", "PRSH", "PRSB", "PL", "WREQ", "WRESP"}`),
-		DisruptKinds: vf.Pick(run, `{"deny", "redirect", "ctlDet", "ctlOn", "ctlOff"}`, `{"deny", "drop", "redirect", "ctlDet", "ctlOn", "ctlOff"}`),
+		DisruptKinds: vf.Pick(run, `{"deny", "redirect", "ctlDet", "ctlOn", "ctlOff", "ctlReqOn", "ctlReqOff"}`, `{"deny", "drop", "redirect", "ctlDet", "ctlOn", "ctlOff", "ctlReqOn", "ctlReqOff", "ctlRespOn", "ctlRespOff"}`),
 		Phases2:      "{1, 2, 3, 4, 5}", Workers: 14, Timeout: vf.Pick(run, 15*time.Minute, 120*time.Minute), Relevant: rel})
 }
 
